@@ -74,7 +74,7 @@ class Driver:
         logging_mode: str = "a",
     ) -> None:
         """Initialize the `Driver` object."""
-        self._seed: Final = seed or PCG64().random_raw()
+        self._seed: Final = seed if seed is not None else PCG64().random_raw()
         self._rng = RNG(PCG64(self._seed))
 
         self.logging_interval = logging_interval
